@@ -17,7 +17,14 @@ import (
 	"golang.org/x/tools/go/ssa/ssautil"
 )
 
-const repoRoot = "/repo"
+// repoRoot is the tree under verification: /repo, or a scratch worktree of it when GOSYM_REPO is set
+// (used to try seeded changes without disturbing /repo).
+var repoRoot = func() string {
+	if r := os.Getenv("GOSYM_REPO"); r != "" {
+		return r
+	}
+	return "/repo"
+}()
 
 // LemmaSpec is one entry of lemmas.json.
 type LemmaSpec struct {
@@ -199,6 +206,7 @@ func (w *worker) runPath(l *LemmaRun, entry *ssa.Function, prefix []Decision) {
 	in.sol.Push()
 	status := "ok"
 	why := ""
+	solverLost := false
 	func() {
 		defer func() {
 			if r := recover(); r != nil {
@@ -211,6 +219,9 @@ func (w *worker) runPath(l *LemmaRun, entry *ssa.Function, prefix []Decision) {
 					status, why = "aborted", "uncaught Go panic: "+describe(x.val, 3)+" at "+x.trace
 				case killG:
 					status, why = "aborted", "killed"
+				case solverDied:
+					status, why = "aborted", x.why
+					solverLost = true
 				default:
 					panic(r)
 				}
@@ -219,6 +230,20 @@ func (w *worker) runPath(l *LemmaRun, entry *ssa.Function, prefix []Decision) {
 		in.call(entry, nil, nil)
 	}()
 	in.killGoroutines()
+	if solverLost {
+		// restart the solver; the path is inconclusive
+		rec := in.sol.record
+		in.sol.Close()
+		in.sol = NewSolver("z3", 20000)
+		in.sol.record = rec
+		in.rollback()
+		l.mu.Lock()
+		l.Paths++
+		l.Aborted[why]++
+		l.stack = append(l.stack, in.newAlts...)
+		l.mu.Unlock()
+		return
+	}
 	var sample map[string]any
 	if status == "ok" && in.twoSided > 0 {
 		l.mu.Lock()
@@ -454,7 +479,7 @@ func loadPackages(verifRoot string, dirs []string) (*loaded, error) {
 	for i, p := range pkgs {
 		dir := ""
 		for _, d := range dirs {
-			if strings.HasSuffix(p.PkgPath, "/"+d) || p.PkgPath == "github.com/bufbuild/buf/"+d {
+			if p.PkgPath == "github.com/bufbuild/buf/"+d {
 				dir = d
 			}
 		}
